@@ -1085,11 +1085,14 @@ def oracle_rotate(case):
     import atomman as am
     u = case['ucell']
     labels = ucell_labels(u)
-    sys0, M, snap = prepare(am, case, labels)
-    V, o, pos0 = M.V, M.o, M.pos
     uv = case['uvws']
     hex4 = len(uv[0]) == 4
     U = np.array(hex4to3(uv) if hex4 else uv, dtype=int)
+    if (case.get('forms') or {}).get('pos') in LOWPREC and U.tolist() == IDENTITY:
+        # never generated (see IDENTITY above); a hand-written / older replay case is judged with float64 positions
+        case = dict(case, forms=dict(case['forms'], pos='float'))
+    sys0, M, snap = prepare(am, case, labels)
+    V, o, pos0 = M.V, M.o, M.pos
     det = idet(U.tolist())
     labels.add('form_' + case['form'])
     opt = case.get('opt')
